@@ -181,6 +181,20 @@ def plain(c):
                if isinstance(x, tuple) and x and isinstance(x[0], str))
 
 
+def has_other(c):
+    """does the canonical form contain an object that is not an immutable plain value? (structural: a decoded bytes value
+    spelling 'other' is not one)"""
+    if not isinstance(c, tuple) or not c:
+        return False
+    if c[0] == "other":
+        return True
+    if c[0] in ("tuple", "fset"):
+        return any(has_other(x) for x in c[1])
+    if c[0] == "slice":
+        return any(has_other(x) for x in c[1:])
+    return False
+
+
 def has_surrogate(o):
     t = type(o)
     if t is str: return any(0xd800 <= ord(c) <= 0xdfff for c in o)
@@ -337,7 +351,7 @@ def check_decode(ctx, model, blobs, sp):
                           what="decoding bytes triggered an import/exec/open audit event")
         if kind == "ok":
             cv = canon(out)
-            if "'other'" in repr(cv):
+            if has_other(cv):
                 ctx.violation("decode-constructs-foreign-object", {"bytes": b.hex()}, observed=short(out), expected="immutable plain value",
                               what="load() returned a value that is not an immutable plain value")
         if res is not None:
